@@ -41,13 +41,13 @@ def strip_local_syms(v):
         return None
     lt = frozenset(s for s in v.lt if not (s.startswith('v') and s[1:].isdigit()))
     le = frozenset(s for s in v.le if not (s.startswith('v') and s[1:].isdigit()))
-    return v.copy(lt=lt, le=le, eop=None, rd=0, tag=None)
+    return v.copy(lt=lt, le=le, eop=None, rd=0, tag='strlen' if v.tag == 'strlen' else None)
 
 
 def vkey(v):
     if v is None:
         return None
-    return (v.lo, v.hi, tuple(sorted(v.lt)), tuple(sorted(v.le)), v.nn)
+    return (v.lo, v.hi, tuple(sorted(v.lt)), tuple(sorted(v.le)), v.nn, v.tag if v.tag == 'strlen' else None)
 
 
 def canon_inc(F, e):
@@ -57,18 +57,20 @@ def canon_inc(F, e):
 
 class Ctx:
     """what is known about one function's inputs"""
-    __slots__ = ('params', 'elems', 'seen', 'fields')
+    __slots__ = ('params', 'elems', 'seen', 'fields', 'zero')
 
     def __init__(self):
         self.params = {}     # param name -> V
         self.elems = {}      # param name -> V   (element invariant of the memory a pointer parameter designates)
         self.fields = None   # (record, field, elem) -> V : set-up fields as they stand at the call sites (unpackers only)
+        self.zero = None     # set of (param name, suffix): memory known zero-filled at every call site (unpackers only)
         self.seen = False
 
     def key(self):
         return (tuple(sorted((k, vkey(v)) for k, v in self.params.items())),
                 tuple(sorted((k, vkey(v)) for k, v in self.elems.items())),
-                tuple(sorted((str(k), vkey(v)) for k, v in (self.fields or {}).items())))
+                tuple(sorted((str(k), vkey(v)) for k, v in (self.fields or {}).items())),
+                tuple(sorted(self.zero or ())))
 
 
 class FnResult:
@@ -78,6 +80,7 @@ class FnResult:
         self.calls = {}        # callee key -> list of per-parameter V (joined over sites)  +  elems
         self.call_elems = {}
         self.call_fields = {}  # callee (an unpacker) -> set-up field values at the call sites
+        self.call_zero = {}    # callee (an unpacker) -> {(param name, suffix)} zero-filled memory behind its pointer arguments
         self.ret = None
         self.ok_fields = {}    # mk -> V at success returns
         self.any_fields = {}   # mk -> V at all returns and at calls
@@ -193,6 +196,25 @@ class Driver:
     def on_call(self, A, env, e, avals, inv):
         nd = A.ex[e]
         d = nd['callee'].get('d')
+        # zero-filled memory (calloc'ed set-up arrays nothing has been stored into yet) behind the pointer arguments of a
+        # call of an unpacker, as it stands before the call
+        z = env.get('$zero')
+        if z:
+            for t in self.P.call_targets(A.F, e):
+                if t in self.unpackers:
+                    G_ = self.P.fn[t]
+                    args = nd.get('c', [])
+                    zs = set()
+                    for i, p in enumerate(G_.params):
+                        if i < len(args) and p['t'].endswith('*'):
+                            rp = A.rpath(args[i], env)
+                            if rp and not rp.startswith('&'):
+                                for pre in z:
+                                    if (pre.startswith(rp + '->') or pre.startswith(rp + '[')) and \
+                                            not any(isinstance(k_, str) and k_.startswith(pre) for k_ in env):
+                                        zs.add((p['name'], pre[len(rp):]))
+                    cz = A.__dict__.setdefault('_callzero', {})
+                    cz[e] = zs if e not in cz else (cz[e] & zs)
         if not d or d == 'ov_ilog' and False:
             return None
         G = self.P.get(d, A.F)
@@ -257,6 +279,9 @@ class Driver:
         ezp = None
         if ez:
             ezp = ez(F)
+        if ctx.zero:
+            pid = {p['name']: p['id'] for p in F.params}
+            ezp = list(ezp or []) + [f'v{pid[pn]}{suf}' for (pn, suf) in sorted(ctx.zero) if pn in pid]
         A = absint.Analyzer(P, F, hooks=hooks, field_inv=inv, param_init=pinit, uninit_summaries=True,
                             entry_zero=ezp, widen_delay=self.widen_delay.get(key, 2), **kw)
         A.param_elems = {}
@@ -312,6 +337,9 @@ class Driver:
                     self._collect(A_, env, fl, self.setup_records, stored_only=False)
                     pf = R.call_fields.get(t)
                     R.call_fields[t] = fl if pf is None else {m: join(pf[m], fl[m]) for m in pf if m in fl}
+                    zs = set(getattr(A_, '_callzero', {}).get(e) or ())
+                    pz = R.call_zero.get(t)
+                    R.call_zero[t] = zs if pz is None else (pz & zs)
                 prev = callobs.get(t)
                 if prev is None:
                     callobs[t] = [vals, elems, [e is not None] * 0]
@@ -378,7 +406,7 @@ class Driver:
             else:
                 ok = sz.lo >= 0 and sz.hi < 2 ** 62
             R.sites.append({'kind': 'alloca' if 'alloca' in r['fn'] else 'alloc', 'e': e, 'canon': F.s(e, names=False),
-                            'text': F.s(e), 'where': F.where(e), 'bound': f'size {sz}', 'ok': ok})
+                            'text': F.s(e), 'where': F.where(e), 'bound': f'size {sz}', 'ok': ok, 'strlen': sz.tag == 'strlen'})
         R.time = time.time() - t0
         return key, R
 
@@ -503,6 +531,7 @@ class Driver:
                             c.elems[p_['name']] = v
                     if t in R.call_fields:
                         c.fields = dict(R.call_fields[t])
+                        c.zero = set(R.call_zero.get(t) or ())
                 elif t in self.roots:
                     # an API function that is also called internally: its parameters stay unconstrained
                     continue
@@ -526,6 +555,7 @@ class Driver:
                     if c.fields is not None:
                         fl = R.call_fields.get(t) or {}
                         c.fields = {m: join(c.fields[m], fl[m]) for m in c.fields if m in fl}
+                        c.zero = (c.zero or set()) & set(R.call_zero.get(t) or ())
         for mk, v in inv_ok.items():
             inv_any[mk] = join(join(inv_any.get(mk), v), K(0))
         # a field of a tracked record that no analysed function stores to keeps the value its allocation gave it: 0
@@ -595,6 +625,25 @@ def _work(key):
 
 # ----------------------------------------------------------------------------------------------------
 # The decode pipeline instance (C02; reused by C16/C11 where they need decoder value ranges)
+def _stored_field_classes(F):
+    c = set()
+    for n in F.pos:
+        nd = F.ex[n]
+        tgt = None
+        if nd['k'] == 'assign':
+            tgt = nd['c'][0]
+        elif nd['k'] == 'un' and nd['op'] in ('pre++', 'post++', 'pre--', 'post--'):
+            tgt = nd['c'][0]
+        if tgt is None:
+            continue
+        t = F.ex[F.strip_casts(tgt)]
+        while t['k'] == 'sub':
+            t = F.ex[F.strip_casts(t['c'][0])]
+        if t['k'] == 'member' and 'record' in t:
+            c.add((t['record'], t['field']))
+    return c
+
+
 def decode_driver(P, verbose=False):
     """Driver over everything the abstract execution of the codec.h decode API reaches.  Cached on P."""
     D = getattr(P, '_decode_driver', None)
@@ -607,6 +656,23 @@ def decode_driver(P, verbose=False):
         raise AnalysisBroken(f'backend unpack slots not found ({slot_unp})')
     unp = [P.key(P.need(n)) for n in ('_vorbis_unpack_info', 'vorbis_staticbook_unpack', '_vorbis_unpack_books',
                                       '_vorbis_unpack_comment')] + slot_unp
+    # file-local helpers that an unpacker was split into: they store set-up fields and are called by unpackers only
+    # (callees[] also lists functions whose address is taken, so a helper used as a value never qualifies)
+    named = list(unp)
+    callers = {}
+    for k_, cs in P.callees.items():
+        for c_ in cs:
+            callers.setdefault(c_, set()).add(k_)
+    changed = True
+    while changed:
+        changed = False
+        for G in P.functions():
+            gk = P.key(G)
+            if gk in unp or not G.static or not callers.get(gk):
+                continue
+            if callers[gk] <= set(unp) and any(r in SETUP_RECORDS for (r, f) in _stored_field_classes(G)):
+                unp.append(gk)
+                changed = True
     free_info = sorted({P.key(P.get(f)) for (r, fl), fs in P.slots.items() if fl == 'free_info' for f in fs if P.get(f) is not None})
     ungated = [P.key(P.need(n)) for n in ('vorbis_info_clear', 'vorbis_comment_clear', 'vorbis_staticbook_destroy',
                                           'vorbis_info_init', 'vorbis_comment_init', 'vorbis_synthesis_headerin',
@@ -616,7 +682,11 @@ def decode_driver(P, verbose=False):
         # codec_setup_info is zero-filled by vorbis_info_init (calloc) and vorbis_info_clear (memset), and the set-up header
         # is accepted only once (ci->books>0 is refused): the arrays _vorbis_unpack_books fills start out zero
         vid = F.params[0]['id']
-        return [f'v{vid}->codec_setup->{f["name"]}[' for f in P.record('codec_setup_info')['fields'] if f.get('extent')]
+        mine = set()
+        for u in unp:
+            mine |= {f_ for (r_, f_) in _stored_field_classes(P.fn[u]) if r_ == 'codec_setup_info'}
+        return [f'v{vid}->codec_setup->{f["name"]}[' for f in P.record('codec_setup_info')['fields']
+                if f.get('extent') and f['name'] in mine and f['name'] != 'blocksizes']
     root_params = {
         # documented API precondition (vorbis_info_blocksize(vi,zo): "zo" selects the short (0) or long (1) block)
         'vorbis_info_blocksize': {'zo': V(0, 1)},
@@ -625,6 +695,7 @@ def decode_driver(P, verbose=False):
                verbose=verbose)
     D.run()
     D.unp = unp
+    D.unp_helpers = [u for u in unp if u not in named]
     D.ungated_list = ungated
     P._decode_driver = D
     return D
